@@ -406,7 +406,7 @@ func (req *SrvReq) Respond() {
 			if p == nil {
 				nextreq.flushreq = req.flushreq
 			} else {
-				nextreq = req.flushreq
+				p.flushreq = req.flushreq
 			}
 		}
 
